@@ -397,12 +397,48 @@ for k in ["leaves_a", "leaves_b", "option", "seq", "map", "struct_unit", "struct
 ACCK = "postcard/src/accumulator.rs::verif_acc"
 K("C08.K.stub.position_zero", ACCK, "verif_acc::position_zero_spec", {"C08": "S", "C09": "S"}, label="bounded(slice<=8)",
   note="discharges the Route-V stub D4 (iter().position(|&i| i == 0) == first zero) for slices up to 8")
-K("C08.K.acc.small", ACCK, "verif_acc::acc_small", {"C08": "D"}, label="bounded(N=4, stream<=5, 2 chunks)", fns=ACCF + ["postcard::accumulator::CobsAccumulator::feed"],
-  note="real accumulator + documented loop vs isolated decoding of each segment, every stream <= 5 bytes, every 2-cut; concrete failing histories")
-K("C09.K.acc.garbage_then_frame", ACCK, "verif_acc::acc_garbage_then_frame", {"C09": "D"}, label="bounded(N=4, garbage<=5)", fns=ACCF,
-  note="any garbage incl. over-long segments: no panic, idx in bounds; after a zero byte a well-formed frame is delivered; loop progress guard")
+K("C08.K.acc.feed_ref_step", ACCK, "verif_acc::feed_ref_step", {"C08": "D", "C09": "D"}, label="bounded(N=4, chunk<=4)", fns=ACCF,
+  note="one feed_ref call from an ARBITRARY state on every chunk <= 4 bytes: the C08/C09 clauses as stated in the Verus contract, isolated decoding = real from_bytes_cobs; gives concrete failing states/chunks")
 for o in OBLIGATIONS:
     if o["id"].startswith("C08.V.acc.feed_ref.") and o["props"].get("C08") == "D":
-        o["witness"] = "C08.K.acc.small"
+        o["witness"] = "C08.K.acc.feed_ref_step"
     if o["id"].startswith("C09.V.acc.feed_ref."):
-        o["witness"] = "C09.K.acc.garbage_then_frame"
+        o["witness"] = "C08.K.acc.feed_ref_step"
+
+# ---------------------------------------------------------------- assumptions / trusted base reported in every evidence file
+A_SERDE = "A-serde: serde's Serialize/Deserialize impls and serde_derive output call exactly the data-model methods their shape prescribes, in order, and propagate errors unchanged (probe-type harnesses run serde's real code and are evidence for it, not a proof)"
+A_STD = "A-std: core/alloc/std functions (from_utf8, encode_utf8, copy_nonoverlapping, split_at, read_exact, write_all, Vec, Box) are executed as real code under Kani and axiomatised by vstd under Verus"
+A_HOST = "A-host: 64-bit little-endian host (global size_of usize == 8); the 16/32-bit cfg branches are not verified"
+A_TOOLS = "tools: Verus 0.2026.09.13 + Z3 + vstd axioms; Kani 0.68 / CBMC 6.11 + CaDiCaL; machine integers are bit-precise in both; spec integers are mathematical; termination is proved only where Verus has a decreases clause (never under Kani)"
+A_PARAM = "parametricity: probe / marker element types stand for 'any T', one concrete flavour stands for 'any F' on the Kani route (argument, not proof)"
+ASSUMPTIONS = {
+    "*": [A_TOOLS, A_HOST, A_STD],
+    "C01": [A_SERDE, A_PARAM, "nesting to arbitrary depth is not proved as one theorem: per-kind round trips + composite probes (depth <= 3) + A-serde"],
+    "C02": [A_SERDE, A_PARAM, "Verus stub le0_* (x.to_le_bytes()[0] == x & 0xff) - discharged by Kani harnesses C02.K.stub.le0_*", "debug_assert_eq!(value, 0) dropped on Route V (D2); Kani checks it"],
+    "C03": [A_SERDE, A_PARAM, "UTF-8 validity oracle for strings <= 3 bytes is written from Unicode Table 3-7; char oracle uses char::encode_utf8 (std)"],
+    "C04": [A_SERDE, "A-cautious: serde's collection visitors cap pre-allocation by min(hint, 1 MiB / size_of::<T>()); the numeric allocation bound itself is not decided by any contract in reach", "MapAccess::size_hint returns Some(len) unconditionally (maps are outside the property's allocation clause; recorded, not alarmed)"],
+    "C05": [A_SERDE, A_PARAM, "capacity running out at every byte position is covered per flavour contract (symbolic capacity), not as one API-level theorem"],
+    "C06": ["A-cobs-src: the cobs source verified is the registry copy of cobs 0.2.3 pinned by Cargo.lock, with a cfg(kani) constructor/getter appended in the scratch copy only", "the link between the per-step contract (Kani, arbitrary state) and the whole-message theorem (Verus lemma) is the shared abstract machine M; Cobs<B> relies on B only through the Flavor + IndexMut contract proved for Slice/HVec", A_SERDE],
+    "C07": ["bounded: input length <= 7 (loops are over the input length); cobs::decode_in_place is executed as real code", A_SERDE],
+    "C08": ["relative to frame decoding: crate::from_bytes_cobs::<T> is an external_body stub with an uninterpreted spec function (D5), pinned by C06/C07", "stub position_zero (D4) checked by Kani for slices <= 8", "axiom: slices and arrays are at most isize::MAX bytes (Rust language guarantee)", "where-clauses T: Deserialize dropped (D6)"],
+    "C09": ["same stubs and axioms as C08", "progress/termination is proved for the documented loop as written in the accumulator's doc comment (exec driver in the unit's trailer)"],
+    "C10": ["A-crc-burst: detection of every burst <= width is a property of the catalogue polynomials (crc / crc-catalog dependency), not of code in /repo; decided here only through 'Ok ==> stored checksum == bitwise reference CRC of the consumed bytes'", "crc crate tables are used as compiled; checked against the bitwise reference only on the probe messages", A_SERDE],
+    "C11": ["bounded: stream <= 6 bytes, scratch <= 4, because std's read_exact / write_all loops are bounded by the requested count; embedded-io adapters are not covered in the quick tier", A_SERDE],
+    "C12": [A_SERDE, "#[derive(MaxSize)] is a token-stream generator: not covered by any contract (no corpus harness could be built inside the postcard crate because the derive emits ::postcard paths)", A_PARAM],
+    "C13": [A_SERDE, "macro-generated impls are verified after expansion (Kani works on MIR)"],
+    "C14": [A_SERDE, A_PARAM, "derive output: bounded corpus only (token-stream generator); tuple/struct enum variants of the corpus are intractable for CBMC and not covered", "std collections (Vec, String, maps, sets) and heapless containers: only the shape of the schema constant is checked", "chrono, nalgebra, uuid impls not covered", "'a schema-driven reader parses every encoding' is not proved as a lemma"],
+    "C15": [A_SERDE, "bounded: one concrete tree per node kind (depth <= 3); lifting to all trees relies on compositionality of serde_derive output"],
+    "C16": ["recursive exec hashers carry #[verifier::exec_allows_no_decreases_clause]: their termination is not proved (the spec functions' termination is)", "stub D10: T::SCHEMA is read through schema_of::<T>() (uninterpreted); stub D3': the final .to_le_bytes() of hash_ty_path / hash_ty_path_owned is dropped - both trusted (Kani cannot discharge them: recursion over &'static schema trees is intractable for CBMC, measured)", "the 33-entry tag table is transcribed from the comments of key/hash.rs (the only documentation); sensitivity is proved for the tag STREAM, not for the 64-bit key (collisions exist by counting)"],
+    "C17": ["partial: private varint / zig-zag copies (Verus, unbounded) and scalar leaf arms (Kani, complete); the composite arms (Option/Seq/Tuple/Map/Struct/Enum) walking serde_json::Value are NOT covered", "serde_json::Value results are mem::forget-ed in harnesses (drop glue intractable)"],
+    "C18": ["partial: leaf kinds only; composite arms and the allocation bound are NOT covered (serde_json / BTreeMap are out of reach of both tools)"],
+    "C20": ["one probe value type per stack; innermost storages Slice / HVec / AllocVec; CRC-32/ISCSI only", A_SERDE],
+}
+
+# ---------------------------------------------------------------- Cobs<B> flavour, Route V (generic over the storage contract)
+for f, what in [("try_new", "fresh Cobs over an empty storage is the initial machine state"),
+                ("try_push", "one push == one step of the abstract encoder machine, for ANY inner storage satisfying the storage contract and any state satisfying the representation invariant"),
+                ("finalize", "finalize output == finalize(machine): last code byte patched, exactly one sentinel")]:
+    V("C06.V.flavor." + f, "cobsflavor", "Cobs::" + f, {"C06": "D", "C20": "D"}, fns=["postcard::ser::flavors::Cobs::" + f, "cobs::EncoderState (pinned registry source)"],
+      witness="C06.K.cobs.*_slice", note=what)
+V("C06.V.flavor.whole_message", "cobsflavor", "encode_all", {"C06": "D", "C20": "D"}, kind="L",
+  note="exec driver over the real flavour: pushing any message byte by byte and finalizing yields cobs(msg) ++ [0] - for every message length and every storage satisfying the contract")
